@@ -444,15 +444,21 @@ def gen_c14(env, tier):
                     cube.walk(lambda c2, r2: inner.append(item(c2, r2)))
                 else:
                     inner.extend(item(c2, r2) for c2, r2 in cube.interactions())
+        second = []
+        several = rnd.random() < 0.2          # walk() takes one callback or a list / tuple of them: each gets everything
         try:
-            if rnd.random() < 0.5 and not nest_at:
+            if rnd.random() < 0.5 and not nest_at and not several:
                 for c, r in cube.interactions():
                     delivered.append(item(c, r))
+            elif several:
+                cbs = [outer, lambda c2, r2: second.append(item(c2, r2))]
+                cube.walk(cbs if rnd.random() < 0.5 else tuple(cbs))
             else:
                 cube.walk(outer)
         except Exception as e:  # noqa
             exc = "%s: %s" % (type(e).__name__, e)
-        for what, lst in (("", delivered),) + ((("nested ", inner),) if nest_at and calls[0] >= nest_at else ()):
+        for what, lst in (("", delivered),) + ((("nested ", inner),) if nest_at and calls[0] >= nest_at else ()) \
+                + ((("second callback of the same ", second),) if several else ()):
             env.rec.tid += 1
             ev = {"tid": env.rec.tid, "prop": "C14", "kind": "walk", "n": n, "dims": [d.tolist() for d in dims],
                   "commons": [int(c) for c in commons], "delivered": lst, "exc": exc is not None}
